@@ -1066,10 +1066,11 @@ def full_exhaustive(maxlen=3):
     for kind in ("head", "skip"):
         for ok in "us":
             for cap in (1, 16):
-                for n in range(1, maxlen + 1):
-                    for seq in itertools.product(alpha, repeat=n):
-                        cases.append("cap=%d %s 2 %s :: append[1,2,3,4] ; A ; D ; %s ; D ; push_back(6) ; L.set(4) ; D"
-                                     % (cap, kind, ok, " ; ".join(seq)))
+                for fl in ("", " b"):
+                    for n in range(1, maxlen + 1):
+                        for seq in itertools.product(alpha, repeat=n):
+                            cases.append("cap=%d %s 2 %s%s :: append[1,2,3,4] ; A ; D ; %s ; D ; push_back(6) ; L.set(4) ; D"
+                                         % (cap, kind, ok, fl, " ; ".join(seq)))
     return cases
 
 
@@ -1122,7 +1123,7 @@ def full_random(rng, n, maxops=40):
             else:
                 evs.append("dropvec")
         evs.append("D")
-        cases.append("cap=%d %s %d %s :: %s" % (cap, kind, limit0, rng.choice("us"), " ; ".join(evs)))
+        cases.append("cap=%d %s %d %s%s :: %s" % (cap, kind, limit0, rng.choice("us"), rng.choice(("", " b")), " ; ".join(evs)))
     return cases
 
 
